@@ -652,8 +652,92 @@ def run_node_reads(spec):
                 h.settle()
     finally:
         w.teardown()
+    if spec["name"].startswith("node_reads0"):
+        try:
+            e2, h2, w2 = run_backlog(spec, cov)
+        except Exception as e:
+            from vf.simnet.harness import Inconclusive
+            if not isinstance(e, Inconclusive):
+                raise
+            return {"evaluations": evals, "hashes": sorted(hashes), "witnesses": wit, "samples": [], "coverage": cov,
+                    "inconclusive": f"backlog scenario: {e}"}
+        evals += e2
+        hashes |= h2
+        wit += w2
     cov["node_read_sizes"] = sorted(set(cov["node_read_sizes"]))[:40]
     return {"evaluations": evals, "hashes": sorted(hashes), "witnesses": wit, "samples": [], "coverage": cov}
+
+
+def run_backlog(spec, cov):
+    """Scale: the connection's read thread is far behind the node's main thread. The application handles requests
+    synchronously (plain Application: in the read thread) and the first request is held by its handler while the peer
+    pipelines well over a mebibyte of further requests; the node goes on reading its socket all the while. Once the
+    handler lets go, every request is delivered, in order, and answered once."""
+    import threading as _th
+    from vf.simnet.world import World, REALM
+    from vf.simnet import msgs as M
+    name = "peer1.verif.example"
+    gate, resumed = _th.Event(), _th.Event()
+    state = {"first": True}
+    w = None
+
+    def behaviour(m):
+        if state["first"]:
+            state["first"] = False
+            me = _th.current_thread()
+            w.h.blocked_ok.add(me)
+            gate.wait(120)
+            w.h.blocked_ok.discard(me)
+            resumed.set()
+        return "answer"
+
+    w = World(dict(peers=[{"name": name}], apps=[{"tag": "a4", "id": 4, "peers": [name], "behaviour": behaviour}],
+                   node={"idle_timeout": 10 ** 6}))
+    h = w.h
+    wit, hashes = [], set()
+    try:
+        w.start()
+        sp = h.inbound(ip="10.1.0.1", port=50001)
+        h.settle()
+        sp.send(M.cer(name, REALM, auth=[4], hbh=1, e2e=1))
+        h.settle()
+        sp.drain()
+        pad = R.enc_avp(18000001, b"p" * 4000, 0, 0)
+        n = 330 if spec.get("n", 0) <= 200 else 600           # 1.3 MiB / 2.4 MiB behind
+        ids = [(5000 + i, 0x90000 + i) for i in range(n + 1)]
+        sp.send(M.ccr(name, REALM, REALM, app=4, hbh=ids[0][0], e2e=ids[0][1], session="backlog;0"))
+        h.settle()
+        total = 0
+        for i in range(1, n + 1):
+            fr = M.ccr(name, REALM, REALM, app=4, hbh=ids[i][0], e2e=ids[i][1], session=f"backlog;{i}", extra=pad)
+            sp.send(fr)
+            total += len(fr)
+            if i % 12 == 0:
+                h.settle(max_ticks=2000)
+        h.settle(max_ticks=2000)
+        closed_while_held = sp.node_sock.closed
+        gate.set()
+        if not resumed.wait(60):
+            from vf.simnet.harness import Inconclusive
+            raise Inconclusive("the held handler did not resume")
+        h.settle(max_ticks=20000)
+        sp.drain()
+        ev = w.observe()["events"]
+        deliv = [(e["hbh"], e["e2e"]) for e in ev if e["kind"] == "app_request"]
+        got = [(f.h.hbh, f.h.e2e) for f in sp.frames if f.h.code == 272 and not f.is_request]
+        cov["backlog_bytes_behind_the_reader"] = total
+        cov["backlog_requests"] = n + 1
+        hashes.add(h64("backlog", n))
+        if closed_while_held or sp.node_sock.closed or deliv != ids or got != ids:
+            wit.append({"key": "framing.node_reads.backlog_lost_or_connection_closed",
+                        "detail": {"bytes_behind": total, "requests": n + 1, "delivered": len(deliv), "answered": len(got),
+                                   "closed_while_reader_held": closed_while_held, "closed": sp.node_sock.closed,
+                                   "in_order": deliv == ids[:len(deliv)]},
+                        "replay": {"op": "node_reads"}})
+    finally:
+        gate.set()
+        w.teardown()
+    return 1, hashes, wit
 
 
 def run_shard(spec):
